@@ -8,13 +8,26 @@ RULE = ("models from the structured generator (depth 0-3, all connectives, expli
         "validated (errors()==[]); non-trivial = negate() takes the inward-push branch (positive node with a compound child); "
         "distinct by canonical text of the model. Not(...): the constructor route, on compound models and on str / puan.variable atoms with boolean, integer and constant bounds (Not(atom) against All(atom)), with the constructor model Cons.build as correspondence")
 
+def lookalike_ast(rng):
+    """a positive node over atoms S and a sub-proposition that looks like one of the threshold nodes negate() generates for S:
+    an anonymous AtLeast(t, S) with the sign given explicitly (either sign), t in the range of the atom sum"""
+    names = rng.sample(list("abcdef"), rng.randint(2, 4))
+    S = [{"k": "str", "id": n_} if rng.random() < 0.7 else {"k": "var", "id": n_, "b": [0, rng.choice([1, 1, 2])]} for n_ in names]
+    hi = sum(c.get("b", [0, 1])[1] for c in S)
+    twin = {"k": "AtLeast", "v": rng.randint(0, hi + 1), "s": rng.choice([1, 1, -1]), "ch": [dict(c) for c in S], "id": None}
+    ch = [dict(c) for c in S] + [twin]
+    if rng.random() < 0.4:
+        ch.append({"k": rng.choice(["All", "Any"]), "ch": [{"k": "str", "id": "g"}, {"k": "str", "id": "h"}], "id": None})
+    top = {"k": "AtLeast", "v": rng.randint(1, len(ch)), "s": rng.choice([None, 1]), "ch": ch, "id": rng.choice(["A", None])}
+    return top if rng.random() < 0.6 else {"k": "All", "ch": [top, {"k": "str", "id": "z"}], "id": None}
+
 def gen_models(rng, n, res, depth_max=3):
     out = []
     tries = 0
     while len(out) < n and tries < n * 5:
         tries += 1
         g = ModelGen(random.Random(rng.getrandbits(64)))
-        ast = g.prop(rng.randint(0, depth_max))
+        ast = lookalike_ast(rng) if tries % 8 == 0 else g.prop(rng.randint(0, depth_max))
         orc = IdOracle()
         try:
             with orc:
